@@ -11,6 +11,7 @@ import itertools
 from hypothesis import strategies as st
 
 from pbt.core import HarnessError, Outcome
+from pbt.props import _decoys
 
 TECHNIQUE = "exhaustive acquire-only histories + Hypothesis-generated contention-biased histories, differential against a ground-truth wait-for graph with defect-switch classification (three-way differential)"
 LEVEL_TEXT = ("Exploration: after every step of every history the controller's check_deadlock() is compared with a wait-for graph recomputed from the history "
@@ -31,6 +32,7 @@ ASSUMPTIONS = [
 MIN_NONTRIVIAL_FRACTION = 0.1
 RULE += " Added after the seeded rounds: " + 'Additionally a memoised breadth-first exploration of the whole state space of 2 operations x 2 resources (depth 7/8 - the memoised state space of about 19000 states is exhausted before that) and 3 operations x 2 resources with preemption (depth 4/6), and histories in which one operation is blocked on two different owners.'
 RULE += ' Operations may carry metadata watchdog_exempt (a timeout-only exemption); a real cycle that check_deadlock() reports must be handled by watchdog.execute().'
+RULE += ' Round 7: a `decoy` (pbt/props/_decoys.py): a second object of the class, differently configured and put through a misleading script (same prompts / names / ids, opposite verdicts and limits), is built in the same process after the object under test.'
 REQUIRED_LABELS = {"ref-cycle": 0.01}
 EXHAUSTIVE_NOTE = {"quick": "all acquire-only histories of depth 1..4 over 3 ops x 3 non-preemptable resources (9+81+729+6561 = 7380), complete",
                    "thorough": "all acquire-only histories of depth 1..6 over 3 ops x 3 non-preemptable resources (597870), complete"}
@@ -71,7 +73,7 @@ def _case(draw):
 
 
 def strategy(tier):
-    return _case()
+    return _decoys.with_decoy(_case())
 
 
 def enumerate_cases(tier):
@@ -212,6 +214,9 @@ def judge(case):
     out = Outcome()
     ctrl = CellCycleController()
     wd = Watchdog(deadlock_strategy=case["strategy"])
+    if case.get("decoy"):
+        _decoys.deadlocked_controller(case["decoy"], CellCycleController)     # same operation and resource ids, really deadlocked - elsewhere
+        out.label("decoy")
     for rid, pre in case["res"]:
         ctrl.register_resource(ResourceLock(resource_id=rid, allow_preemption=pre))
     ops = OPS[:case["ops_n"]]
